@@ -10,11 +10,12 @@ open PTree
 
 /-! ## unknown options are rejected -/
 
-/-- every name the user wrote (outside `unchecked` sections) is declared, recursively -/
+/-- every name the user wrote is declared, recursively — except inside sections the DESCRIPTION declares `unchecked` (an attribute
+    `unchecked` on the user's own node exempts nothing) -/
 def KnownIn : Nat → PTree → PTree → Prop
   | 0, _, _ => True
   | fuel + 1, user, defaults =>
-    user.hasAttr "unchecked" = true ∨
+    defaults.hasAttr "unchecked" = true ∨
     ∀ c ∈ user.children, ∃ d, getLast defaults.children c.name = some d ∧ KnownIn fuel c d
 
 /-- `CheckUserInput` accepts only user trees all of whose option names are declared in the description -/
@@ -24,7 +25,7 @@ theorem accepted_input_is_declared : ∀ (fuel : Nat) (user defaults : PTree),
   | fuel + 1, user, defaults, h => by
     unfold checkUserInput at h
     unfold KnownIn
-    by_cases hu : user.hasAttr "unchecked" = true
+    by_cases hu : defaults.hasAttr "unchecked" = true
     · exact Or.inl hu
     · right
       simp only [hu, if_false, Bool.false_eq_true] at h
@@ -40,7 +41,7 @@ theorem accepted_input_is_declared : ∀ (fuel : Nat) (user defaults : PTree),
         exact ⟨d, rfl, accepted_input_is_declared fuel c d this⟩
 
 /-- an undeclared name at the top level of a checked section is an error that names it -/
-theorem unknown_rejected (fuel : Nat) (user defaults c : PTree) (hu : user.hasAttr "unchecked" = false)
+theorem unknown_rejected (fuel : Nat) (user defaults c : PTree) (hu : defaults.hasAttr "unchecked" = false)
     (hc : c ∈ user.children) (hnone : getLast defaults.children c.name = none) :
     ∃ e, checkUserInput (fuel + 1) user defaults = .error e := by
   cases h : checkUserInput (fuel + 1) user defaults with
@@ -53,6 +54,16 @@ theorem unknown_rejected (fuel : Nat) (user defaults c : PTree) (hu : user.hasAt
     · rw [hu] at h1; cases h1
     · obtain ⟨d, hd, _⟩ := h2 c hc
       rw [hnone] at hd; cases hd
+
+/-- the other half of "outside an unchecked section": whatever the user writes inside a section the description declares `unchecked` passes the
+    name check (it is then carried into the result as it is, `overwrite` step c) -/
+theorem unchecked_section_accepts (fuel : Nat) (user defaults : PTree) (h : defaults.hasAttr "unchecked" = true) :
+    checkUserInput (fuel + 1) user defaults = .ok () := by
+  unfold checkUserInput; simp [h]
+
+/-- an attribute `unchecked` on the USER's node exempts nothing (the defect repaired in /repo: `CheckUserInput` used to look at the user's node) -/
+example : ∃ e, checkUserInput 3 (node "sec" "" [("unchecked", "")] [node "smuggled" "1" [] []]) (node "sec" "" [] [node "known" "" [] []]) = .error e :=
+  unknown_rejected 2 _ _ (node "smuggled" "1" [] []) (by decide) (by simp [PTree.children]) (by decide)
 
 /-! ## missing REQUIRED options are rejected -/
 
